@@ -82,7 +82,7 @@ func runVBC(cfg *runCfg) error {
 				ws[r.Intn(size)] = uint64(3 + r.Intn(8))
 			}
 		case 3: // totals around 2^53 and 2^63 (the float arithmetic of finding F5 is wrong there)
-			base := []uint64{1 << 53, 1 << 62}[r.Intn(2)]
+			base := []uint64{1 << 53, 1 << 62, 1 << 63, 3 << 62, ^uint64(0) - 63}[r.Intn(5)] // at and above 2^63 doubling the total wraps
 			for j := range ws {
 				ws[j] = base/uint64(len(ws)) + uint64(r.Intn(3))
 			}
@@ -360,7 +360,7 @@ func runVBC(cfg *runCfg) error {
 	}
 	rep.Evaluations = n
 	rep.DistinctNontr = rep.Distribution["verdict:accepted"] + rep.Distribution["verdict:rejected"]
-	rep.Rule = "certificates over committees of 4..8 members (unit / random / heavy / near-2^53 weights) with signer sets aimed at Q, Q-1, f, f+1 and W, one field mutation each (type, instance, height, hash, bad signature, duplicate, outsider, wrong / empty seed, other previous proof, dropped signer), strict and soft mode, cancelled context, nil block, failing Membership, truncated / size-mangled / random bytes and the F7 witness; every case is distinct by construction with overwhelming probability; non-trivial = a verdict was compared"
+	rep.Rule = "certificates over committees of 4..8 members (unit / random / heavy weights, totals near 2^53, 2^62, 2^63, 3*2^62 and 2^64) with signer sets aimed at Q, Q-1, f, f+1 and W, one field mutation each (type, instance, height, hash, bad signature, duplicate, outsider, wrong / empty seed, other previous proof, dropped signer), strict and soft mode, cancelled context, nil block, failing Membership, truncated / size-mangled / random bytes and the F7 witness; every case is distinct by construction with overwhelming probability; non-trivial = a verdict was compared"
 	cf := newCaseFile("From LH Require Import Prims Quorum Msg Term VBC Corr.\nOpen Scope N_scope.")
 	cf.addShards("vc", "vcase", "v_ok", cases, 500)
 	p := filepath.Join(cfg.outDir, "cases_vbc.v")
